@@ -90,7 +90,7 @@ def rtPart (obs : String) : Option String :=
 
 def verdict (b : Bool) (why : String) : String := if b then "ok" else "FAIL " ++ why
 
-def monitor (op obs : String) : String :=
+def monitorCore (op obs : String) : String :=
   match splitWs op with
   | ["g1", pt] =>
     match chunks64 pt 2, rtPart obs with
@@ -114,5 +114,12 @@ def monitor (op obs : String) : String :=
   | ["fmul", _, _, _, _] => if obs.startsWith "PANIC" || obs == "HANG" then "FAIL field-op" else "ok"
   | ["fpow", _, _, _] => if obs.startsWith "PANIC" || obs == "HANG" then "FAIL field-op" else "ok"
   | _ => "FAIL bad-op"
+
+/-- Model-independent clause first: compression, decompression and hashing are functions of the
+    byte content of their argument only and leave the argument unchanged (the harness reports a
+    violation of that as `MUTATED-INPUT` / `ALIASED` / `NONDET` in the observation). -/
+def monitor (op obs : String) : String :=
+  if disciplineOk obs then monitorCore op obs
+  else "FAIL input-buffer-discipline (result depends on buffer identity or history, or the input was modified)"
 
 def main (args : List String) : IO UInt32 := driverMain model monitor args
